@@ -43,15 +43,15 @@ import (
 type Kind string
 
 const (
-	Shared     Kind = "shared"  // t="s", <v> = index into the shared string table, plain <si><t> (18.4.8 si, 18.4.12 t)
-	SharedRich Kind = "rich"    // t="s", the <si> holds rich text runs <r><rPr/><t> (18.4.4 r); displayed value = concatenation of the runs
-	Inline     Kind = "inline"  // t="inlineStr", <is><t> (18.3.1.53 is)
-	FormulaStr Kind = "fstr"    // t="str": <f> + cached string in <v>
-	FormulaNum Kind = "fnum"    // <f> + cached number in <v> (t absent or "n")
-	Bool       Kind = "bool"    // t="b", <v> 1|0 ; displayed TRUE|FALSE
-	Error      Kind = "error"   // t="e", <v> = error code (18.18.11: "e" cell containing an error)
-	Number     Kind = "num"     // t absent (default "n"); <v> = the number's lexical form
-	Blank      Kind = "blank"   // <c r=".." s=".."/> : a formatted cell without a value
+	Shared     Kind = "shared" // t="s", <v> = index into the shared string table, plain <si><t> (18.4.8 si, 18.4.12 t)
+	SharedRich Kind = "rich"   // t="s", the <si> holds rich text runs <r><rPr/><t> (18.4.4 r); displayed value = concatenation of the runs
+	Inline     Kind = "inline" // t="inlineStr", <is><t> (18.3.1.53 is)
+	FormulaStr Kind = "fstr"   // t="str": <f> + cached string in <v>
+	FormulaNum Kind = "fnum"   // <f> + cached number in <v> (t absent or "n")
+	Bool       Kind = "bool"   // t="b", <v> 1|0 ; displayed TRUE|FALSE
+	Error      Kind = "error"  // t="e", <v> = error code (18.18.11: "e" cell containing an error)
+	Number     Kind = "num"    // t absent (default "n"); <v> = the number's lexical form
+	Blank      Kind = "blank"  // <c r=".." s=".."/> : a formatted cell without a value
 )
 
 // Kinds lists the value-carrying kinds (everything except Blank).
@@ -173,9 +173,9 @@ type Options struct {
 	// RelSeed != 0 permutes the relationship ids and the order of the
 	// <Relationship> elements of workbook.xml.rels.
 	RelSeed    uint64 `json:"rel_seed,omitempty"`
-	NoStyles   bool   `json:"no_styles,omitempty"`   // omit xl/styles.xml (all s attributes are then omitted too)
+	NoStyles   bool   `json:"no_styles,omitempty"`    // omit xl/styles.xml (all s attributes are then omitted too)
 	NoDocProps bool   `json:"no_doc_props,omitempty"` // omit docProps/core.xml and app.xml
-	NoTheme    bool   `json:"no_theme,omitempty"`    // omit xl/theme/theme1.xml
+	NoTheme    bool   `json:"no_theme,omitempty"`     // omit xl/theme/theme1.xml
 	// WorkbookPrefix: namespace prefix for xl/workbook.xml ("" or e.g. "x").
 	WorkbookPrefix string `json:"workbook_prefix,omitempty"`
 	// Extra members are appended verbatim (decoys for the detection property).
